@@ -13,6 +13,15 @@ pub const ISSUER_KEYS: &[&str] = &["ecA", "ecB", "edA", "hsA"];
 pub const HOLDER_KEYS: &[&str] = &["ecC", "edB"];
 pub const ALL_KEYS: &[&str] = &["ecA", "ecB", "ecC", "ecD", "edA", "edB", "edC", "hsA", "hsB"];
 
+/// A key id may carry a JWK `kid` label after '#': "ecC#k1" is key ecC whose JWK says kid=k1.
+pub fn base(id: &str) -> &str {
+    id.split('#').next().unwrap_or(id)
+}
+
+pub fn kid_of(id: &str) -> Option<&str> {
+    id.split_once('#').map(|(_, k)| k)
+}
+
 pub fn alg_of(id: &str) -> &'static str {
     match &id[..2] {
         "ec" => "ES256",
@@ -32,7 +41,7 @@ pub fn family_of_alg(alg: &str) -> &'static str {
 }
 
 fn priv_pem(id: &str) -> &'static str {
-    match id {
+    match base(id) {
         "ecA" => ECA_PRIV,
         "ecB" => ECB_PRIV,
         "ecC" => ECC_PRIV,
@@ -45,7 +54,7 @@ fn priv_pem(id: &str) -> &'static str {
 }
 
 pub fn pub_pem(id: &str) -> &'static str {
-    match id {
+    match base(id) {
         "ecA" => ECA_PUB,
         "ecB" => ECB_PUB,
         "ecC" => ECC_PUB,
@@ -58,7 +67,7 @@ pub fn pub_pem(id: &str) -> &'static str {
 }
 
 pub fn jwk_str(id: &str) -> &'static str {
-    match id {
+    match base(id) {
         "ecA" => ECA_JWK,
         "ecB" => ECB_JWK,
         "ecC" => ECC_JWK,
@@ -71,11 +80,15 @@ pub fn jwk_str(id: &str) -> &'static str {
 }
 
 pub fn jwk_value(id: &str) -> Value {
-    serde_json::from_str(jwk_str(id)).expect("jwk json")
+    let mut v: Value = serde_json::from_str(jwk_str(id)).expect("jwk json");
+    if let (Some(k), Some(o)) = (kid_of(id), v.as_object_mut()) {
+        o.insert("kid".into(), Value::String(k.to_string()));
+    }
+    v
 }
 
 pub fn jwk(id: &str) -> jsonwebtoken::jwk::Jwk {
-    serde_json::from_str(jwk_str(id)).expect("jwk")
+    serde_json::from_value(jwk_value(id)).expect("jwk")
 }
 
 pub fn enc_key(id: &str) -> EncodingKey {
@@ -95,7 +108,7 @@ pub fn dec_key(id: &str) -> DecodingKey {
 }
 
 pub fn hs_secret(id: &str) -> &'static [u8] {
-    match id {
+    match base(id) {
         "hsA" => HS_SECRET_A,
         "hsB" => HS_SECRET_B,
         _ => panic!("no hs secret for {}", id),
